@@ -482,10 +482,10 @@ func c12Closure(r *ck.Run, s *c12Stream, dests []int) {
 		for _, d := range dests {
 			// admissible source answers
 			ns := map[int]bool{}
-			lim := d
-			if rem < lim {
-				lim = rem
-			}
+			// what the source hands out does not depend on len(p): the readers read their source through buffers of
+			// their own (bufio), so every answer size is admissible for every destination size (a source asked for
+			// fewer bytes than planned hands out what it was asked for)
+			lim := rem
 			if lim == 0 {
 				ns[0] = true // source is at EOF: answers (0, EOF)
 			}
